@@ -21,15 +21,25 @@ use std::sync::Arc;
 
 pub const OUTCOMES: u64 = 1 << 23;
 
-/// An RNG whose every output is the same word (one draw outcome).
+/// An RNG whose first output is the enumerated word (one draw outcome) and whose later outputs are
+/// all zero: a transition decision that consumes more than its one uniform draw, or uses a later
+/// draw, gets visibly different shares. Fields: (word, outputs produced so far).
 #[derive(Clone)]
-pub struct OneWord(pub u32);
+pub struct OneWord(pub u32, pub u32);
+impl OneWord {
+    fn word(&mut self) -> u32 {
+        let w = if self.1 == 0 || self.1 == u32::MAX { self.0 } else { 0 }; // u32::MAX: the same word for ever
+        self.1 = self.1.saturating_add(1);
+        w
+    }
+}
 impl RngCore for OneWord {
     fn next_u32(&mut self) -> u32 {
-        self.0
+        self.word()
     }
     fn next_u64(&mut self) -> u64 {
-        ((self.0 as u64) << 32) | self.0 as u64
+        let w = self.word();
+        ((w as u64) << 32) | w as u64
     }
     fn fill_bytes(&mut self, d: &mut [u8]) {
         for b in d.iter_mut() {
@@ -97,9 +107,10 @@ pub fn enumerate(state: &State, event: Event, targets: &[usize], lo: u64, hi: u6
     let mut counts = vec![0u64; targets.len()];
     let mut none = 0u64;
     let mut other = 0u64;
-    let mut rng = OneWord(0);
+    let mut rng = OneWord(0, 0);
     for k in lo..hi {
         rng.0 = (k as u32) << 9;
+        rng.1 = 0;
         match state.sample_state(event, &mut rng) {
             None => none += 1,
             Some(t) => match targets.iter().position(|x| *x == t) {
@@ -204,12 +215,13 @@ fn probe(v: &[Trans], lo: u64, hi: u64) -> Result<u64, String> {
     let listener = mk(budget, vec![st_map(l0, Some(Action::Cancel { timer: maybenot::action::Timer::All }), (None, None))]);
     let ms = Ms(Arc::new(vec![m.clone(), listener]));
     let state0 = m.states[0].clone();
-    let base: Framework<Ms, OneWord, VT> = Framework::new(ms, 0.0, 0.0, VT(0), OneWord(0)).map_err(|e| format!("{:?}", e))?;
+    let base: Framework<Ms, OneWord, VT> = Framework::new(ms, 0.0, 0.0, VT(0), OneWord(0, 0)).map_err(|e| format!("{:?}", e))?;
     let mut n = 0u64;
-    let mut rng = OneWord(0);
+    let mut rng = OneWord(0, 0);
     for k in lo..hi {
         let w = (k as u32) << 9;
         rng.0 = w;
+        rng.1 = 0;
         let target = state0.sample_state(NormalRecv, &mut rng);
         // a framework whose RNG returns this word for every draw (constant distributions draw nothing else that matters)
         let mut f: Framework<Ms, OneWord, VT> = unsafe_set_rng(&base, w);
@@ -238,7 +250,7 @@ fn probe(v: &[Trans], lo: u64, hi: u64) -> Result<u64, String> {
 fn unsafe_set_rng(base: &Framework<Ms, OneWord, VT>, w: u32) -> Framework<Ms, OneWord, VT> {
     // Framework::new draws only for limits (none here), so rebuilding with the word is equivalent to a clone with that RNG
     let _ = base;
-    PROBE_MS.with(|m| Framework::new(m.borrow().clone().expect("probe machines"), 0.0, 0.0, VT(0), OneWord(w)).expect("probe framework"))
+    PROBE_MS.with(|m| Framework::new(m.borrow().clone().expect("probe machines"), 0.0, 0.0, VT(0), OneWord(w, 0)).expect("probe framework"))
 }
 thread_local! {
     static PROBE_MS: std::cell::RefCell<Option<Ms>> = std::cell::RefCell::new(None);
@@ -441,7 +453,7 @@ pub fn worker(ctx: &WorkerCtx) -> WorkerOut {
                     seq.push(trig.clone());
                     seq.extend(y.clone());
                     seq.push(trig.clone());
-                    let mut f: Framework<Ms, OneWord, VT> = Framework::new(ms.clone(), 0.0, 0.0, VT(0), OneWord(0x7FFF_FFFF)).expect("probe");
+                    let mut f: Framework<Ms, OneWord, VT> = Framework::new(ms.clone(), 0.0, 0.0, VT(0), OneWord(0x7FFF_FFFF, u32::MAX)).expect("probe");
                     let mut last: Vec<Act> = vec![];
                     for e in &seq {
                         last = f.trigger_events(std::slice::from_ref(e), VT(0)).map(conv).collect();
@@ -474,9 +486,10 @@ pub fn worker(ctx: &WorkerCtx) -> WorkerOut {
                             let hi = (1u64 << 32) * (ti + 1) / nt;
                             let mut counts = vec![0u64; targets.len()];
                             let mut none = 0u64;
-                            let mut rng = OneWord(0);
+                            let mut rng = OneWord(0, 0);
                             for w in lo..hi {
                                 rng.0 = w as u32;
+                                rng.1 = 0;
                                 match st.sample_state(Event::TunnelSent, &mut rng) {
                                     None => none += 1,
                                     Some(t) => {
